@@ -53,8 +53,15 @@ def gen_aff(rng, tiny=True):
     d = lambda lo, hi: dy(rng, lo, hi, 64)
     if k < 0.15:
         return Affine2D(1, 0, 0, 1, float(rng.randint(-500, 500)), float(rng.randint(-500, 500)))
-    if k < 0.3:
+    if k < 0.22:
         return Affine2D(d(-2, 2), 0, 0, d(-2, 2), d(-300, 300), d(-300, 300))
+    if k < 0.3:  # uniform scale about an off-diagonal centre (PaintScaleUniformAroundCenter)
+        s_ = rng.choice([0.5, 2.0, -1.0, 0.25, 1.5, -0.5, 0.75])
+        cx, cy = rng.randint(-300, 300), rng.randint(-300, 300)  # integral centre: the specialised paint is emitted
+        if rng.random() < 0.5:
+            return Affine2D(s_, 0, 0, s_, (1 - s_) * cx, (1 - s_) * cy)
+        s2 = rng.choice([0.5, 2.0, -1.0, 1.25])
+        return Affine2D(s_, 0, 0, s2, (1 - s_) * cx, (1 - s2) * cy)
     if k < 0.45:  # rotations by Pythagorean triples, reflections
         m, n, h = rng.choice([(3, 4, 5), (0, 1, 1), (1, 0, 1), (-1, 0, 1)])
         s = rng.choice([1.0, -1.0])
